@@ -32,15 +32,20 @@ MANIFEST = dict(
          "satisfies every Equal / IsDType / EqualScalar constraint under every well-sorted valuation that is an "
          "instance of it; C02_whole_input / C02_whole_input_accepted — a statement that fails to check after a checked "
          "prefix rejects the whole input, leaves the pre-input checker state and never enters the run stage; "
-         "C02_accept_sound / C02_accept_sound_annotated — for the arithmetic core of the elaborator (literals incl. the "
+         "C02_accept_sound / C02_accept_sound_annotated — for every expression form of the elaborator model (literals incl. the "
          "polymorphic 0, identifiers, units, unary and binary operators with constant exponents, comparisons, if, calls "
          "of monomorphic and of generic (quantified, Dim-bounded) functions and values with instantiation by fresh "
-         "variables; no list literals) over well-formed environments: acceptance plus a "
+         "variables, list literals) over well-formed environments: acceptance plus a "
          "solver solution imply, in every well-sorted instance of the solution, the declarative dimensional analysis "
          "has_ty of Dim/Sem.v at exactly the meaning of the inferred (and of the reported) type, and for annotated "
          "definitions that the annotation denotes the derived dimension; C02_canonical_form — every factor list produced by "
-         "try_canonicalize is strictly sorted with non-zero exponents and canonicalisation is idempotent. NOT proved: accept-soundness for function "
-         "definitions/generalisation and list literals; C02_reject_complete; solver "
+         "try_canonicalize is strictly sorted with non-zero exponents and canonicalisation is idempotent; "
+         "C02_decides_partial / C02_reject_complete_partial / C02_accept_exact_partial — 'exactly' on the monomorphic "
+         "arithmetic fragment (non-zero literals, names, unary minus, + - -> * / ^ over an environment of monomorphic "
+         "variable-free dimension types): the elaborator accepts iff ordinary dimensional analysis (danalyse) succeeds, "
+         "with exactly that dimension as the type, so a rejected expression is dimensionally inconsistent. NOT proved: "
+         "that a function DEFINITION adds a well-formed generalised scheme to the environment (env_ok preserved by "
+         "generalisation); reject-completeness beyond the monomorphic fragment (needs principal types); solver "
          "termination/mgu; idempotence of the returned substitution. Those clauses rest on the ties: accept/reject, the "
          "TypeCheckError variant and the raw type scheme of every statement are compared between model and "
          "implementation on generated multi-statement programs, mis-dimensioned variants and two-input sessions; an "
@@ -57,7 +62,8 @@ MANIFEST = dict(
 )
 
 THEOREMS = ["C02_solver_sound", "C02_accept_sound", "C02_accept_sound_annotated", "C02_canonical_form",
-            "C02_whole_input", "C02_whole_input_accepted"]
+            "C02_whole_input", "C02_whole_input_accepted", "C02_decides_partial", "C02_reject_complete_partial",
+            "C02_accept_exact_partial"]
 ALLOWED_AXIOMS = []
 IMPORTS = ["Dim.Model", "Dim.Infer", "Dim.Exec", "Gen.PreludeDims"]
 VO = ["theories/Props/C02.vo", "theories/Dim/Exec.vo", "theories/Gen/PreludeDims.vo"]
@@ -449,7 +455,8 @@ def run(chk):
         "are hand-written and cross-checked against the implementation's dump on every run)",
     ]
     chk.assumptions += [
-        "numeric literals in generated programs are short decimals whose f64 -> rational conversion is exact",
+        "numeric literals in generated programs are decimals (also in scientific notation, down to subnormal and up to "
+        "huge finite magnitudes) that are non-zero and finite as f64 exactly when they are non-zero as decimals",
         "generated names (va*, fa*, pa*, pb*, uu*, bb*, DimA*, DimB*, DA..DD) do not clash with prelude identifiers",
         "exponents on dimensionful bases are constant expressions of literals (the property's guard)",
     ]
@@ -465,6 +472,7 @@ def run(chk):
         cases.append(dict(inputs=[list(x) for x in D.from_json(c["inputs"])], kind="corpus", why=c.get("why", "")))
     ncorpus = len(cases)
     cases += D.gen_cases(chk.rng, nprog)
+    cases += D.gen_literal_cases(chk.rng, 90 if quick else 900)
     check_expectations(cases)
     soups = [D.gen_soup(chk.rng) for _ in range(max(20, len(cases) // 9))]
     T["generate_s"] = round(time.time() - t0, 1)
@@ -480,8 +488,10 @@ def run(chk):
     t0 = time.time()
     idx = [n for n, line in enumerate(impl) if line and "\t" in line and "ok|?" not in line.split("\t")[0]]
     items = [(D.coq_case(cases[n]["inputs"]), impl[n].split("\t")[0]) for n in idx]
-    shard = max(20, int(math.ceil(len(items) / float(common.NPROC))))
-    raw_bad = common.coq_mismatches(IMPORTS, items, "c02", shard_size=shard)
+    # shards of at most 250 cases: a shard must finish within its time-out also on a heavily loaded machine
+    shard = min(250, max(20, int(math.ceil(len(items) / float(common.NPROC)))))
+    raw_bad = common.coq_mismatches(IMPORTS, items, "c02", shard_size=shard,
+                                    timeout=900 if chk.tier == "quick" else 3000)
     unsupported = {idx[k]: m for k, m in raw_bad.items() if "MODEL-UNSUPPORTED" in m}
     bad = {idx[k]: m for k, m in raw_bad.items() if "MODEL-UNSUPPORTED" not in m}
     T["model_s"] = round(time.time() - t0, 1)
@@ -559,7 +569,10 @@ def run(chk):
         "rule": "corpus/c02.json, then seeded typed generation: well-dimensioned programs of 3-10 statements "
                 "(dimensions known by construction), 1-2 mis-dimensioned variants of each (operand unit swapped in "
                 "+ - comparison -> if-branches list / argument lists, annotation or return annotation changed, call "
-                "arguments permuted, alternative dimension expression changed) and two-input sessions; plus a "
+                "arguments permuted, alternative dimension expression changed) and two-input sessions; a family of literals "
+                "of special magnitude (spellings of zero, subnormal, smallest normal, scientific notation, huge finite) as "
+                "operand of a sum / comparison, annotated value, argument, conditional branch and list element next to a "
+                "dimensionful quantity (accepted iff the literal is exactly zero); plus a "
                 "malformed token-soup stream run on the implementation only. Non-trivial = the case contains a "
                 "function definition or an input rejected by the type checker; distinct = distinct implementation "
                 "observation strings (verdict + raw type scheme of every statement) among those",
